@@ -440,6 +440,11 @@ func (p *parser) parseStep(n node) (opnd node) {
 
 // Expr ::= '(' Step ("," Step)* ')'
 func (p *parser) parseSequence(n node) (opnd node) {
+	// parseStep and parseSequence call each other for every '(' without passing
+	// through parseExpression, so the depth guard has to be applied here as well.
+	if p.d = p.d + 1; p.d > 200 {
+		panic("the xpath query is too complex(depth > 200)")
+	}
 	p.skipItem(itemLParens)
 	opnd = p.parseStep(n)
 	for {
@@ -451,6 +456,7 @@ func (p *parser) parseSequence(n node) (opnd node) {
 		opnd = newOperatorNode("|", opnd, opnd2)
 	}
 	p.skipItem(itemRParens)
+	p.d--
 	return opnd
 }
 
